@@ -252,6 +252,64 @@ def setter_structure():
     return False, False, "init_offset setter not found"
 
 
+def padding_probes():
+    """`Segment._is_padding` read BY BEHAVIOUR: the method's own source (class `Segment` of segments.py) is compiled in isolation -
+    `BinaryPattern` replaced by a three-line stand-in for the zeros / ones / inc blocks, `cls` a stand-in carrying SIZE and
+    IMAGE_PATTERNS - and evaluated on a fixed probe set (uniform blocks, every kind of 00/FF mix, a third byte value, short and long
+    inputs, SIZE <= 0).  -> list of (size, patterns, data, answer | None when the method cannot be evaluated that way).
+    A re-spelling of the predicate regenerates the same table; a predicate that answers differently on a probe changes it."""
+    tree = parse(SEG)
+    fn = None
+    for cls in (x for x in tree.body if isinstance(x, ast.ClassDef) and x.name == "Segment"):
+        for f in (x for x in cls.body if isinstance(x, ast.FunctionDef) and x.name == "_is_padding"):
+            fn = f
+    probes = []
+    blocks = {"zeros": lambda n: b"\x00" * n, "ones": lambda n: b"\xff" * n, "inc": lambda n: bytes(i & 0xFF for i in range(n))}
+
+    class _Pat:
+        def __init__(self, pattern):
+            self.pattern = pattern
+
+        def get_block(self, size):
+            return blocks[self.pattern](size)
+
+    func = None
+    if fn is not None:
+        try:
+            plain = ast.FunctionDef(name="_is_padding", args=fn.args, body=fn.body, decorator_list=[], returns=None, type_comment=None,
+                                    lineno=1, col_offset=0)
+            if hasattr(ast, "TypeVar"):
+                plain.type_params = []
+            for a in plain.args.args:
+                a.annotation = None
+            mod = ast.Module(body=[plain], type_ignores=[])
+            ast.fix_missing_locations(mod)
+            ns = {"BinaryPattern": _Pat}
+            exec(compile(mod, "<_is_padding>", "exec"), ns)   # noqa: S102 - the method's own few lines, no imports, stand-ins only
+            func = ns["_is_padding"]
+        except Exception:  # noqa: BLE001
+            func = None
+    datas = []
+    for n in (4, 6):
+        z, f = b"\x00" * n, b"\xff" * n
+        datas += [(n, z), (n, f), (n, z[:1] + f[1:]), (n, f[:1] + z[1:]), (n, z[:n // 2] + f[n // 2:]), (n, f[:n // 2] + z[n // 2:]),
+                  (n, bytes([0, 0xFF] * (n // 2))), (n, f[:-1] + b"\x00"), (n, z[:-1] + b"\xff"), (n, z[:-1] + b"\x01"), (n, b"\x5a" * n),
+                  (n, z[:-1]), (n, f[:-1]), (n, z + b"\x07\x08"), (n, f + b"\x00\x00"), (n, z[:-1] + b"\xff" + z), (n, b"")]
+    datas += [(-1, b"\x00" * 4), (-1, b"\xff" * 4), (0, b"\x00" * 4), (0, b"")]
+    for pats in (["zeros", "ones"], ["zeros"], ["ones"]):
+        for size, data in datas:
+            ans = None
+            if func is not None:
+                try:
+                    cls_ = type("S", (), {"SIZE": size, "IMAGE_PATTERNS": list(pats)})
+                    r = func(cls_, data)
+                    ans = bool(r) if isinstance(r, (bool, int)) else None
+                except Exception:  # noqa: BLE001
+                    ans = None
+            probes.append((size, pats, data, ans))
+    return probes, (f"{SEG}:{fn.lineno}" if fn is not None else "Segment._is_padding not found")
+
+
 def fcb_tags():
     tree = parse(FCBPY)
     for n in ast.walk(tree):
@@ -365,6 +423,14 @@ def gen_BimgTables():
     o.append(f"/-- the `init_offset` setter calls `_update_segments()` on its `offset == 0` path / on its non-zero path ({where}) -/")
     o.append(f"def setterUpdatesOnZero : Bool := {str(upd0).lower()}")
     o.append(f"def setterUpdatesOnNonZero : Bool := {str(updn).lower()}")
+    probes, pwhere = padding_probes()
+    o.append(f"/-- `Segment._is_padding` ({pwhere}) evaluated on a fixed probe set: (SIZE, IMAGE_PATTERNS, data, answer); `paddingProbesOk` = the")
+    o.append("    method could be evaluated on every probe -/")
+    o.append("def paddingProbes : List (Int × List String × List UInt8 × Bool) := [")
+    o.append(",\n".join(f"  ({lint(sz)}, [{', '.join(lstr(x) for x in pats)}], {lbytes(data)}, {str(bool(ans)).lower()})"
+                         for sz, pats, data, ans in probes))
+    o.append("]")
+    o.append(f"def paddingProbesOk : Bool := {str(all(a is not None for _, _, _, a in probes)).lower()}")
     o.append(f"def fcbTag : List UInt8 := {lbytes(tag)}")
     o.append(f"def fcbTagSwapped : List UInt8 := {lbytes(tag_sw)}")
     o.append("def memTypes : List String := [" + ", ".join(lstr(m) for m in mts) + "]")
@@ -372,6 +438,7 @@ def gen_BimgTables():
     meta = {"kinds": kinds, "layouts": [{"segs": [[k, off] for k, off in segs], "pattern": pat} for segs, pat in layouts],
             "rows": rows, "fcb_tag": tag.hex(), "fcb_tag_swapped": tag_sw.hex(), "mem_types": mts, "problems": problems,
             "fcb_families": sorted(fcb_fams), "setter_updates": [upd0, updn, where],
+            "padding_probes": [[sz, pats, data.hex(), ans] for sz, pats, data, ans in probes],
             "source": ["spsdk/data/devices/*/database.yaml", "spsdk/data/common/database_defaults.yaml", SEG, FCBPY, MEM]}
     emit("BimgTables", "\n".join(o) + "\n", meta)
 
